@@ -130,6 +130,7 @@ def hold_script(w, st, res):
             if w.pr(P(w, d)).status == 'OPEN':
                 gate(w, d, res)
                 finish_queue(w, res)
+                ev(w, 1, res)          # still held while another dependency is open
     elif hold in ('after_unknown', 'after_nonnum'):
         for t in ('@robot after_pull_request=99', '@robot after_pull_request=abc'):
             w.delete_comment(P(w, 1), t)
@@ -181,6 +182,8 @@ def reset_script(w, st, res):
             w.pmap[n] = w.open_pr('bugfix/TEST-%d' % n, dst)
             gate(w, n, res)
             finish_queue(w, res)
+        elif a == 'eval':
+            ev(w, 1, res)
         elif a.startswith('manual') and wnames:
             wn = wnames[0] if a == 'manual_first' else wnames[-1]
             if w.tip(wn):
@@ -195,12 +198,12 @@ def reset_script(w, st, res):
     ev(w, 2, res)
 
 
-def queue_prs(w, res, n, dst, hotfix=None):
+def queue_prs(w, res, n, dst, hotfix=None, hotfix_n=1):
     """Queue n PRs (no merge). Returns symbolic ids."""
     ids = []
     for i in range(n):
         k = len(w.pmap) + 1
-        d = hotfix if (hotfix and i == 0) else dst
+        d = hotfix if (hotfix and i < hotfix_n) else dst
         w.pmap[k] = w.open_pr('bugfix/TEST-%d' % k, d)
         gate(w, k, res)
         ids.append(k)
@@ -212,7 +215,7 @@ def admin_script(w, st, res):
     dst = w.init_branches[0]
     hot = w.hotfix[0] if (st.get('hotfix_queue') and w.hotfix) else None
     if st['queued'] and w.settings.use_queue:
-        queue_prs(w, res, st['queued'], dst, hotfix=hot)
+        queue_prs(w, res, st['queued'], dst, hotfix=hot, hotfix_n=st.get('hotfix_n', 1))
     kw = {}
     if kind in ('CreateBranch', 'DeleteBranch'):
         kw['branch'] = st['branch']
